@@ -137,7 +137,7 @@ func runCut(c *mc.Ctx, p cutParams) {
 		st := &fakeStorage{last: last}
 		bf := flows.NewBaseFlow(nopLog{}, q, st, nil, nil, flows.NewBaseFlowConfig(max, startL2, false))
 		r, err := bf.GetCertificateBuildParamsInternal(context.Background(), ct)
-		tag := fmt.Sprintf("%s MaxCertSize=%d (prefix sizes %v)", in, max, size)
+		tag := lazy(func() string { return fmt.Sprintf("%s MaxCertSize=%d (prefix sizes %v)", in, max, size) })
 		if err != nil || r == nil {
 			e.failf("size-cut/unexpected-error", "%s: GetCertificateBuildParamsInternal returned (%v, %v), want blocks %d..%d",
 				tag, r, err, from, wantT)
@@ -205,7 +205,7 @@ func runCut(c *mc.Ctx, p cutParams) {
 		for _, cfg := range cfgs {
 			for lim := uint64(0); lim <= from+6; lim++ {
 				evals++
-				out := checkLimiter(e, l, r, cfg, lim, prev == 2, fmt.Sprintf("%s MaxCertSize=%d", in, max))
+				out := checkLimiter(e, l, r, cfg, lim, prev == 2, in, max)
 				obs.WriteByte(out)
 				switch out {
 				case 'c':
@@ -262,6 +262,11 @@ func runCut(c *mc.Ctx, p cutParams) {
 	}
 }
 
+// lazy is a message prefix that is only formatted when a failure is reported.
+type lazy func() string
+
+func (l lazy) String() string { return l() }
+
 func dedupe(s []uint) []uint {
 	out := s[:0]
 	for i, v := range s {
@@ -274,11 +279,15 @@ func dedupe(s []uint) []uint {
 
 // checkLimiter runs the real limiter on r (already verified to be blocks from..r.ToBlock of l) and
 // returns '=' unchanged, 'c' cut, 'e' refused, '!' violation.
-func checkLimiter(e *exec, l *layout, r *types.CertificateBuildParams, cfg limCfg, lim uint64, retry bool, in string) byte {
+func checkLimiter(e *exec, l *layout, r *types.CertificateBuildParams, cfg limCfg, lim uint64, retry bool, in string,
+	maxCertSize uint) byte {
 	from, to := r.FromBlock, r.ToBlock
 	f := flows.NewMaxL2BlockNumberLimiter(lim, nopLog{}, cfg.allowResizeRetry, cfg.requireOneBridgeExit)
 	got, err := f.AdaptCertificate(r)
-	tag := fmt.Sprintf("%s limiter=%s MaxL2BlockNumber=%d input %d..%d retry=%v", in, cfg.name, lim, from, to, retry)
+	tag := lazy(func() string {
+		return fmt.Sprintf("%s MaxCertSize=%d limiter=%s MaxL2BlockNumber=%d input %d..%d retry=%v", in, maxCertSize, cfg.name, lim,
+			from, to, retry)
+	})
 	if (got == nil) != (err != nil) {
 		e.failf("limiter/result-and-error-disagree", "%s: got (%v, %v)", tag, got, err)
 		return '!'
@@ -363,7 +372,7 @@ func checkRange(e *exec, l *layout, ct types.CertificateType, in string) {
 		for b := from - 1; b <= to+1; b++ {
 			n++
 			got, err := full.Range(a, b)
-			tag := fmt.Sprintf("%s Range(%d,%d)", in, a, b)
+			tag := lazy(func() string { return fmt.Sprintf("%s Range(%d,%d)", in, a, b) })
 			valid := from <= a && a <= b && b <= to
 			if (got == nil) != (err != nil) {
 				e.failf("range/result-and-error-disagree", "%s: got (%v, %v)", tag, got, err)
